@@ -62,6 +62,16 @@ func (fr *Frame) execInstr(in ssa.Instruction) {
 		v := fr.val(in.Val)
 		p := fr.asPtr(addr, in.Addr.Type(), in.Pos())
 		fr.checkStoreFrame(addr, p, in.Pos())
+		if p.Cell != nil && len(p.Path) == 1 && p.Path[0].Field != "" {
+			if p.Cell.fieldFresh == nil {
+				p.Cell.fieldFresh = map[string]*Term{}
+			}
+			f := v.Fresh
+			if f == nil {
+				f = TFalse
+			}
+			p.Cell.fieldFresh[p.Path[0].Field] = f
+		}
 		fr.store(p, fr.term(v), in.Pos())
 	case *ssa.Slice:
 		fr.sliceOp(in)
@@ -499,7 +509,7 @@ func (fr *Frame) nilCompare(in *ssa.BinOp, xv, yv *GVal) *Term {
 	switch u := ot.Underlying().(type) {
 	case *types.Slice:
 		if other.Reg != nil || other.Len != nil && other.T == nil {
-			return TFalse
+			return other.viewNil()
 		}
 		return w.SlNil(fr.term(other))
 	case *types.Map:
@@ -587,7 +597,7 @@ func (fr *Frame) sliceOp(in *ssa.Slice) {
 			conds = append(conds, Le(hi, mx), Le(mx, ln))
 		}
 		fr.oblige("safe", "slice-bounds", safetyProps, And(conds...), in.Pos())
-		g := &GVal{Reg: x.Reg, Off: addOff(x.Off, lo), Len: subT(hi, lo), Typ: in.Type(), Fresh: x.Fresh, Origin: x.Origin}
+		g := &GVal{Reg: x.Reg, Off: addOff(x.Off, lo), Len: subT(hi, lo), Typ: in.Type(), Fresh: x.Fresh, Origin: x.Origin, NilT: x.NilT}
 		if x.Reg == nil {
 			if x.Len != nil {
 				g.T = x.T
@@ -771,6 +781,7 @@ func (fr *Frame) makeInterface(in *ssa.MakeInterface) *GVal {
 	if xv.Ptr != nil && xv.T == nil {
 		g.Ptr = xv.Ptr // remembered for stdlib functions that write through an interface-wrapped pointer
 	}
+	g.Wrapped = xv
 	return g
 }
 
